@@ -71,7 +71,9 @@ def main():
                     return run()
                 except Exception as exc:     # noqa: BLE001
                     return f'EXC {type(exc).__name__}: {exc}'
-            st = e4.explore(safe, bound, max_exec)
+            # history items rebuild a database on every execution: a tenth of the execution cap is plenty for
+            # their few order choices (their purpose is the warm / cold comparison of the plain pass)
+            st = e4.explore(safe, bound, max_exec // 10 if name.startswith('hist:') else max_exec)
             first = safe()        # default order again, scheduler inactive
             outs = st.pop('outcomes')
             res[name] = dict(st, n_outcomes=len(outs),
